@@ -19,6 +19,9 @@ CHECKS = {
  "C09": ("three independent oracles over every call of the pairwise aligner (own scorer of the returned rows, Gotoh local dynamic program, brute-force enumeration of all local alignments for tiny inputs) on exhaustively enumerated small pairs and random / related / border pairs (reference-model runtime monitor)",
          "Held on the pairs executed: all 14400 ordered pairs over {A,C,G} (lengths 1..4) x 10 schemes, all pairs over {A,W,T}, {E,Z,P}, {E,Q,L,F} under DNAfull / BLOSUM62 gap schemes (exhaustive, each also brute-forced), and random nucleotide / protein pairs up to 60 (250) residues under random dyadic schemes: rows valid, substrings as reported, counts consistent, MaxScore == score of the returned rows == optimum whenever the optimum is positive, inputs unchanged.",
          "Trusted: mon/c09/ref.go (Gotoh DP and brute force, which must agree with each other), exact dyadic float arithmetic, the published EDNAFULL / BLOSUM62 tables typed in the monitor (compared with the tables of the build through the hook VerifSubstMatrix). Empty sequences and nucleotide-vs-protein pairs are outside the quantifier.", "1/C09"),
+ "C16": ("relational runtime monitor on every phased result (substring at the reported position, frame, independent translation, exact copy => exact start, one result per input, inputs unchanged, Phase(nil) == Phase(longest ORF)) + naive every-ATG oracle for the ORF search + Go race detector over a schedule-perturbing, event-recording SeqBag/Sequence wrapper with an offline exactly-once / closed-stream checker and a goroutine-dump deadlock probe + enumeration of fault positions (too short sequence, k-th Translate, k-th Clone)",
+         "Held on the executions observed: relations on every result of thousands of generated sets (1..3 references, 3..40 flanked exact / mutated / reverse-strand copies, translate/reverse/cut-end/3 codes) with 1 and 2..8 workers; longest-ORF answers equal to the every-ATG oracle on sequences with overlapping frames; identical result sets, every sequence exactly once and a closed stream for workers 1..32 x GOMAXPROCS 1..16 x perturbation plans with zero race reports; every enumerated fault position delivers an error and closes the stream.",
+         "Trusted: lib/ref/gencode.go (NCBI tables), the Go race detector (only races on the interleavings driven), the deadlock classifier over runtime.Stack. With cut-end only the start of the trimmed sequence is decided. Sequences without any positive-scoring anchored alignment (pure junk) are outside the quantifier.", "1/C16"),
 }
 NOT_YET = {}
 def main():
